@@ -306,6 +306,12 @@ pub fn run(tier: Tier) -> i32 {
             for r in regions {
                 candidates.push(format!("{}-{}", lang, r));
             }
+            // UN M.49 area codes and other numeric regions, for known languages
+            if known {
+                for n in 0..1000 {
+                    candidates.push(format!("{}-{:03}", lang, n));
+                }
+            }
             // odd shapes
             candidates.push(format!("{}-", lang));
             candidates.push(format!("{}-x", lang));
@@ -416,7 +422,7 @@ pub fn run(tier: Tier) -> i32 {
     rep.set("tag_strings", strings);
     rep.set("tag_strings_with_known_language", nontrivial);
     rep.set("exhaustive", true);
-    rep.set("rule", "all 65,536 codes (code preserved, tag total, tag round trip, per-primary-id structure); every tag in the image maps to the smallest code carrying it; 82 identifier/tag pairs from the Windows reference; all strings ll, lll, ll-RR, lll-RR (+ odd shapes) over the tier's alphabets, with every known language x all 676 regions in both tiers. distinct_nontrivial = distinct tags + strings whose language part is known");
+    rep.set("rule", "all 65,536 codes (code preserved, tag total, tag round trip, per-primary-id structure); every tag in the image maps to the smallest code carrying it; 82 identifier/tag pairs from the Windows reference; all strings ll, lll, ll-RR, lll-RR, every three-digit region for known languages (+ odd shapes) over the tier's alphabets, with every known language x all 676 regions in both tiers. distinct_nontrivial = distinct tags + strings whose language part is known");
     rep.sample(json!({"code": 1033, "tag": code_tag[1033]}));
     rep.sample(json!({"tag": "en-XX", "code": Language::from_tag("en-XX").code(), "back": Language::from_tag("en-XX").tag()}));
     rep.sample(json!({"tag": "zz-ZZ", "code": Language::from_tag("zz-ZZ").code()}));
